@@ -51,7 +51,7 @@ def run(R):
                  "rotation: per claim kind and denom the old and new address together must hold after the transaction exactly what they held before; the rotated accounts (a4 by secret, with and without a separate fee payer; a0 by recovery-token holder) own every monitored claim kind; multi-signer transactions (two signers / two messages, separate signing fee payer, unsigned fee payer) are in the stream",
                  "genesis round trip is an operation of every history (scripted once, plus at random): real ExportGenesis / store wipe / InitGenesis of multistaking, spending, recovery and (every other history) gov, with every exported list PERMUTED (genesis validation imposes no order); right afterwards no balance and no claim record may differ, and the history continues under the same clauses. Not round-tripped (C12 lost:* classes, pinned in harness/cmd/c03/genesis.go): collectives, layer2, custody; carried over byte for byte: multistaking pool-delegator index and compound info, recovery token-holder registrations",
                  "escrow: after every step, per escrowed claim kind (tips/gov, undelegations/multistaking, dApp bonds/layer2, rewards/fee collector, holder rewards/recovery) and denom, the module's balance must cover the pending entries of the accounts that did not sign; the step that opens or widens a shortfall is reported. A settlement by the rightful party of an entry pending in the harness' ghost record (accepted request / handle / cancel / edit / rotation messages) must be accepted. The tip stream keeps 4+ requesters pending at once, interleaves re-registration (same value, new value, other key), deletion and rotation between creation and settlement, and repeats every settlement (handle x3, cancel after handle, cancel twice, claim / withdraw twice)",
-                 "raw Ethereum transactions: only the forged direction is generated (attacker-signed raw tx naming a victim without / with a key on record)"]
+                 "raw Ethereum transactions: an Ethereum-style account (address = Ethereum address of its key) sends honest raw transactions; adversarial: attacker-signed raw tx naming a victim, and multi-message transactions whose honestly authorised FIRST message (raw Ethereum payload of the victim, fresh or already accepted; or a DIRECT signature made over the first message alone) is followed by 1-2 appended messages debiting the same account. The payload author is not counted as a signer: its debit is bounded by what the payload / first message covers plus the fee (clause debit-exceeds-what-was-signed)"]
     R.gen("gen_signers", "DebitSites.v")
     R.coq_files(FILES)
     R.coq_property()
